@@ -222,8 +222,8 @@ fn main() {
                     } else if since.elapsed().as_secs() >= stall {
                         // phase "harness": no crate call is open; then the driver itself loops,
                         // which the orchestrator reports as inconclusive, not as a violation
-                        let phase = ["harness", "poll", "push", "drop"][(b & 0xff) as usize & 3];
-                        let _ = writeln!(std::io::stdout(), "HANG {{\"hist\":{},\"phase\":\"{}\",\"stall_s\":{},\"worker\":\"{}\"}}", b >> 8, phase, stall, label);
+                        let phase = ["harness", "poll", "push", "drop", "waker"][((b & 0xff) as usize).min(4)];
+                        let _ = writeln!(std::io::stdout(), "HANG {{\"hist\":{},\"phase\":\"{}\",\"stall_s\":{},\"worker\":{}}}", b >> 8, phase, stall, json::esc(&label));
                         let _ = std::io::stdout().flush();
                         std::process::exit(3);
                     }
@@ -512,7 +512,11 @@ fn main() {
                 .raw("violation_counts", Obj::new().num("C01/lost_wakeup_pingpong/pingpong", viols.len()).done())
                 .raw("inconclusive", Obj::new().done())
                 .raw("subjects", Obj::new().num("pingpong", total).done())
-                .raw("observed", Obj::new().num("pingpong_rounds", total).num("pingpong_collection_polls", polls).done())
+                .raw("observed", {
+                    let p = mt::points();
+                    let _ = p;
+                    Obj::new().num("pingpong_rounds", total).num("pingpong_collection_polls", polls).done()
+                })
                 .num("wall_ms", t0.elapsed().as_millis())
                 .done();
             println!("{out}");
